@@ -75,10 +75,11 @@ Print Assumptions PIPE_permute_multiset_partial.
 
 
 (* ---------- C11: wrapping, without a hypothesis on the accumulated ids ----------
-   For trees of well-formed documents ([tree_wf], Res/PipelineWfProofs.v: wf_node documents; per layer no
-   `namespace:` directive, no custom labels[].fields, create-only generators with good names, comma-free
-   namePrefix / nameSuffix) the ids a kustomization accumulates are pairwise distinct - Append / AppendAll check
-   them, prefix and suffix rewrite the names of one kind uniformly and injectively, labels and annotations never
+   For trees of well-formed documents ([tree_wf], Res/PipelineWfProofs.v: wf_node documents; per layer no custom
+   labels[].fields, create-only generators with good names, comma-free namespace / namePrefix / nameSuffix) the
+   ids a kustomization accumulates are pairwise distinct - Append / AppendAll check them, the namespace
+   transformer re-checks them itself (and keeps documents well-formed, the Namespace-kind rename included),
+   prefix and suffix rewrite the names of one kind uniformly and injectively, labels and annotations never
    reach kind, apiVersion, name or namespace (obligation label_tbl_clear on the generated tables) - hence a
    directive-less wrapper layer is transparent. *)
 Theorem PIPE_accumulate_ids_distinct :
